@@ -24,4 +24,6 @@ def run(ctx):
     host.t9(ctx)
     host.ord3_ord5c(ctx)
     host.ord5(ctx)
-    flow.f2(ctx, make_kinds(ctx.model))     # every route that re-assembles the authority (str() included) uses the bracketed host
+    K = make_kinds(ctx.model)
+    flow.f_self(ctx, K, methods={"with_host"})      # with_host() never skips validation/encoding because the text equals the stored host
+    flow.f2(ctx, K)     # every route that re-assembles the authority (str() included) uses the bracketed host
